@@ -22,7 +22,7 @@ from ..cfg import CFG
 from ..exctable import ExcTable
 from ..explore import Explorer
 from ..loader import NOFOLD, AnalysisError, EnumMember, Repo
-from ..report import Check
+from ..report import Check, canon
 from .e1_common import check_entry, engine, finish
 
 M = "xknx.telegram.address"
@@ -178,26 +178,42 @@ def roundtrip(chk: Check, repo: Repo, cname: str, notation: str | None, fields: 
         wide = dict(values); wide[name] = B.norm([(0, w, B.SymBits(name, w)), (w, 1, 1)])
         gotw = {(p.end_kind, p.env.get("#raised")) for p in run_parser(wide)}
         chk.ob("parser-rejects-overflowing-field", ps.site(), gotw == {("raise", "CouldNotParseAddress")}, f"{label}: `{name}` >= 2**{w} -> {sorted(map(str, gotw))}; required CouldNotParseAddress", key=f"overflow|{label}|{name}")
-    # regex shape vs renderer: separators and digit counts
+    # regex vs renderer: every text the renderer can produce is matched, with the groups the parser reads
     pat = repo.fold(cls.attrs["ADDRESS_RE"].args[0], cls.module, cls) if isinstance(cls.attrs.get("ADDRESS_RE"), ast.Call) else NOFOLD
     if not isinstance(pat, str):
         raise AnalysisError(f"{cname}.ADDRESS_RE pattern not a literal")
-    shape = _regex_shape(pat)
-    flat = []
-    for el in shape:
-        if isinstance(el, tuple) and el[0] == "opt":
-            if "middle" in [f[0] for f in fields]:
-                flat += el[1]
-        else:
-            flat.append(el)
-    want_shape = []
-    for i, (name, lo, w) in enumerate(fields):
-        if i:
-            want_shape.append(sep)
-        want_shape.append(name)
-    got_shape = [el if isinstance(el, str) else el[0] for el in flat]
-    digits_ok = all(rng[0] <= 1 and rng[1] >= len(str(2 ** next(w for n_, _, w in fields if n_ == nm) - 1)) for nm, rng in [el for el in flat if isinstance(el, tuple)])
-    chk.ob("regex-accepts-rendered-text", cls.module.relpath + f":0:{cname}.ADDRESS_RE", got_shape == want_shape and digits_ok, f"{label}: regex {pat!r} has shape {got_shape} with digit counts {[el[1] for el in flat if isinstance(el, tuple)]}; rendered text is {want_shape} with up to {[len(str(2 ** w - 1)) for _, _, w in fields]} digits", key=f"regex|{label}")
+    regex_language(chk, cls, label, pat, fields, sep, parts if ok else None)
+
+
+def regex_language(chk: Check, cls, label: str, pat: str, fields, sep: str, parts) -> None:
+    """Finite language inclusion: {rendered text of every field-value tuple} is a subset of L(ADDRESS_RE), and the
+    named groups capture exactly the decimal text of each field.  The pattern is a literal read from the class
+    body; `re` serves as the membership oracle for that regular language (no repository code runs)."""
+    import itertools
+    import re as _re
+    try:
+        rx = _re.compile(pat)
+    except _re.error as err:
+        raise AnalysisError(f"{label}: ADDRESS_RE does not compile: {err}") from err
+    names = [f[0] for f in fields]
+    all_groups = set(rx.groupindex)
+    bad = None
+    n = 0
+    for vals in itertools.product(*[range(2 ** w) for _, _, w in fields]):
+        text = sep.join(map(str, vals))
+        n += 1
+        m = rx.match(text)
+        if m is None or m.end() != len(text):
+            bad = (text, "no match")
+            break
+        gd = m.groupdict()
+        if any(gd.get(nm) != str(v) for nm, v in zip(names, vals)) or any(gd.get(g) is not None for g in all_groups - set(names)):
+            bad = (text, f"groups {gd}")
+            break
+    chk.count("regex_language_texts", n)
+    chk.ob("regex-accepts-rendered-text", cls.module.relpath + f":0:{cls.name}.ADDRESS_RE", bad is None and parts is not None,
+           f"{label}: all {n} texts `{sep.join('<' + x + '>' for x in names)}` the renderer can produce are matched by {pat!r} with groups = the decimal fields" if bad is None else f"{label}: rendered text {bad[0]!r} is not parsed back by {pat!r}: {bad[1]}",
+           key=f"regex|{label}")
 
 
 def wire(chk: Check, repo: Repo) -> None:
@@ -209,6 +225,44 @@ def wire(chk: Check, repo: Repo) -> None:
     chk.ob("wire-roundtrip", tk.site(), ok, f"to_knx = {ast.unparse(r1[0].value) if r1 else '?'}; from_knx = {ast.unparse(r2[0].value) if r2 else '?'} (2 big-endian octets both ways)", key="wire")
     over = [c.name for c in repo.subclasses(repo.cls(M, "BaseAddress"), strict=True) if "to_knx" in c.methods or "from_knx" in c.methods]
     chk.ob("wire-roundtrip", tk.site(), not over, f"subclasses overriding to_knx/from_knx: {over}", key="wire-overrides")
+
+
+def raw_invariant(chk: Check, repo: Repo, cname: str) -> None:
+    """Every normal exit of the constructor leaves 0 <= self.raw <= 65535: each `self.raw = V` is a copy from an address
+    of the same class, the packed result of the notation parser (16 bits by the parser obligations), a value already
+    range-checked, or is followed on every path by the range guard."""
+    ini = repo.func(M, f"{cname}.__init__")
+    cfg = CFG(ini.node)
+    mf = cfg.must_facts()
+    RANGE = ("0 <= {} <= 65535", "0 <= {} <= 65535")
+
+    def ranged(facts, expr: str) -> bool:
+        return any(val and atom.replace(" ", "") in (f"0<={expr}<=65535", f"0<={expr}<=0xffff", f"0<={expr}<={cname}.MAX_FREE") for atom, val in facts) or \
+            (any(val and atom.replace(" ", "") in (f"{expr}>=0", f"0<={expr}") for atom, val in facts) and any(val and atom.replace(" ", "") in (f"{expr}<=65535", f"{expr}<65536") for atom, val in facts))
+
+    exit_ok = ranged(mf.get(cfg.exit, frozenset()), "self.raw")
+    writes = [n for n in cfg.nodes if n.kind == "stmt" and isinstance(n.ast, (ast.Assign, ast.AnnAssign, ast.AugAssign)) and any(isinstance(t, ast.Attribute) and t.attr == "raw" and isinstance(t.ctx, ast.Store) for t in ast.walk(n.ast))]
+    chk.floor(f"{cname}.__init__ writes of self.raw", len(writes), 2)
+    for n in writes:
+        a = n.ast
+        v = a.value if isinstance(a, (ast.Assign, ast.AnnAssign)) else None
+        vt = ast.unparse(v) if v is not None else "?"
+        why = None
+        if exit_ok:
+            why = "the range guard `0 <= self.raw <= 65535` holds on every path to the normal exit"
+        elif v is not None and isinstance(v, ast.Attribute) and v.attr == "raw" and any(val and atom == f"isinstance({ast.unparse(v.value)}, {cname})" for atom, val in mf[n.id]):
+            why = f"copy of another {cname}'s raw (invariant by induction)"
+        elif v is not None and isinstance(v, ast.Call) and call_name(v).endswith("__string_to_int"):
+            why = "packed result of the notation parser (fields range-checked, 16 bits — see parser obligations)"
+        elif v is not None and ranged(mf[n.id], vt):
+            why = f"`{vt}` was range-checked before the assignment"
+        else:
+            # guard after the assignment on every path to the exit
+            after = cfg.reachable([n.id])
+            guards = [g.id for g in cfg.nodes if g.id in after and ranged(mf.get(g.id, frozenset()), "self.raw")]
+            if guards and cfg.all_paths_hit(n.id, guards, [cfg.exit], edge_ok=cfg.normal_only):
+                why = "followed by the range guard on every path to the normal exit"
+        chk.ob("constructor-establishes-16-bit-range", ini.site(a), why is not None, f"{cname}.__init__: `{ast.unparse(a)}` — {why or 'no range check between this assignment and the normal exit: a value outside 0..65535 is stored (renders to text that re-parses to a different address; to_knx cannot serialise it)'}", key=f"raw-range|{cname}|{canon(a)}")
 
 
 def internal(chk: Check, repo: Repo) -> None:
@@ -230,6 +284,8 @@ def run(chk: Check, repo: Repo) -> None:
     roundtrip(chk, repo, "GroupAddress", "FREE", [("raw", 0, 16)], "/")
     roundtrip(chk, repo, "IndividualAddress", None, [("area", 12, 4), ("main", 8, 4), ("line", 0, 8)], ".")
     wire(chk, repo)
+    raw_invariant(chk, repo, "GroupAddress")
+    raw_invariant(chk, repo, "IndividualAddress")
     internal(chk, repo)
     mr = engine(repo)
     for q in ("IndividualAddress.__init__", "GroupAddress.__init__", "InternalGroupAddress.__init__"):
